@@ -1,10 +1,13 @@
 /-
   helper lemmas about the info / ACK encoders and decoders (Info.lean): the generated formats
   written out as atoms, the atoms used (`?`, `s`, `i`), the closed forms of the encoders, the
-  decoders on well-shaped payloads, and the lemmas behind Props/C06.
+  decoders on well-shaped payloads, the strict UTF-8 validator (`validUtf8` = "is the encoding of
+  a text"), and the lemmas behind Props/C06; at the end the composition with the handshake model
+  (`Describe.lean`): what the client holds after `connect()` against a conforming device.
   (`BitVec.ofNat 8 n` is C06's `byte n`; `leBytes 4 (r % 2^32).toNat` is C06's `i32le r`.)
 -/
 import NxsModel.Info
+import NxsModel.Describe
 import NxsModel.Spec.Wire
 import NxsModel.Lemmas.Serial
 namespace Nxs.Info
@@ -191,25 +194,344 @@ theorem wrong_kind (fid : Nat) (d : Bytes) :
   · unfold chinfoDecode; exact if_pos h
   · unfold ackDecode; exact if_pos h
 
+/-! ### UTF-8: the strict decoder's acceptance condition and the encoder -/
+
+theorem validUtf8_cons (b0 : Byte) (rest : Bytes) : validUtf8 (b0 :: rest) =
+    (if b0.toNat < 0x80 then validUtf8 rest
+    else if b0.toNat < 0xC2 then false
+    else if b0.toNat < 0xE0 then
+      match rest with
+      | b1 :: r => isCont b1 && validUtf8 r
+      | _ => false
+    else if b0.toNat < 0xF0 then
+      match rest with
+      | b1 :: b2 :: r =>
+        isCont b1 && isCont b2 && (b0.toNat != 0xE0 || 0xA0 ≤ b1.toNat) && (b0.toNat != 0xED || b1.toNat < 0xA0)
+          && validUtf8 r
+      | _ => false
+    else if b0.toNat < 0xF5 then
+      match rest with
+      | b1 :: b2 :: b3 :: r =>
+        isCont b1 && isCont b2 && isCont b3 && (b0.toNat != 0xF0 || 0x90 ≤ b1.toNat)
+          && (b0.toNat != 0xF4 || b1.toNat < 0x90) && validUtf8 r
+      | _ => false
+    else false) := by
+  rw [validUtf8.eq_def]; rfl
+
+/-- a well-formed prefix does not influence what follows -/
+theorem validUtf8_append : ∀ (a b : Bytes), validUtf8 a = true → validUtf8 (a ++ b) = validUtf8 b
+  | [], b, _ => rfl
+  | b0 :: rest, b, h => by
+    rw [validUtf8_cons] at h
+    rw [List.cons_append, validUtf8_cons]
+    by_cases h1 : b0.toNat < 0x80
+    · rw [if_pos h1] at h ⊢
+      exact validUtf8_append rest b h
+    rw [if_neg h1] at h ⊢
+    by_cases h2 : b0.toNat < 0xC2
+    · rw [if_pos h2] at h; exact absurd h (by simp)
+    rw [if_neg h2] at h ⊢
+    by_cases h3 : b0.toNat < 0xE0
+    · rw [if_pos h3] at h ⊢
+      match rest, h with
+      | [], h => exact absurd h (by simp)
+      | b1 :: r, h =>
+        simp only [Bool.and_eq_true] at h
+        simp only [List.cons_append, h.1, Bool.true_and]
+        exact validUtf8_append r b h.2
+    rw [if_neg h3] at h ⊢
+    by_cases h4 : b0.toNat < 0xF0
+    · rw [if_pos h4] at h ⊢
+      match rest, h with
+      | [], h => exact absurd h (by simp)
+      | [_], h => exact absurd h (by simp)
+      | b1 :: b2 :: r, h =>
+        simp only [Bool.and_eq_true] at h
+        simp only [List.cons_append, h.1, Bool.true_and, Bool.and_true]
+        exact validUtf8_append r b h.2
+    rw [if_neg h4] at h ⊢
+    by_cases h5 : b0.toNat < 0xF5
+    · rw [if_pos h5] at h ⊢
+      match rest, h with
+      | [], h => exact absurd h (by simp)
+      | [_], h => exact absurd h (by simp)
+      | [_, _], h => exact absurd h (by simp)
+      | b1 :: b2 :: b3 :: r, h =>
+        simp only [Bool.and_eq_true] at h
+        simp only [List.cons_append, h.1, Bool.true_and, Bool.and_true]
+        exact validUtf8_append r b h.2
+    rw [if_neg h5] at h; exact absurd h (by simp)
+
+theorem isCont_iff (b : Byte) : isCont b = true ↔ 0x80 ≤ b.toNat ∧ b.toNat ≤ 0xBF := by
+  simp [isCont]
+
+/-- one-byte sequence `00..7F` -/
+theorem validUtf8_one (b0 : Byte) (r : Bytes) (h : b0.toNat < 0x80) :
+    validUtf8 (b0 :: r) = validUtf8 r := by
+  rw [validUtf8_cons, if_pos h]
+
+/-- two-byte sequence `C2..DF 80..BF` -/
+theorem validUtf8_two (b0 b1 : Byte) (r : Bytes) (h0 : 0xC2 ≤ b0.toNat ∧ b0.toNat < 0xE0)
+    (h1 : 0x80 ≤ b1.toNat ∧ b1.toNat ≤ 0xBF) : validUtf8 (b0 :: b1 :: r) = validUtf8 r := by
+  rw [validUtf8_cons, if_neg (by omega), if_neg (by omega), if_pos (by omega)]
+  simp only [(isCont_iff b1).2 h1, Bool.true_and]
+
+/-- three-byte sequence `E0 A0..BF`, `E1..EC 80..BF`, `ED 80..9F`, `EE..EF 80..BF`, then `80..BF` -/
+theorem validUtf8_three (b0 b1 b2 : Byte) (r : Bytes) (h0 : 0xE0 ≤ b0.toNat ∧ b0.toNat < 0xF0)
+    (h1 : 0x80 ≤ b1.toNat ∧ b1.toNat ≤ 0xBF) (h2 : 0x80 ≤ b2.toNat ∧ b2.toNat ≤ 0xBF)
+    (hlo : b0.toNat = 0xE0 → 0xA0 ≤ b1.toNat) (hsur : b0.toNat = 0xED → b1.toNat < 0xA0) :
+    validUtf8 (b0 :: b1 :: b2 :: r) = validUtf8 r := by
+  rw [validUtf8_cons, if_neg (by omega), if_neg (by omega), if_neg (by omega), if_pos (by omega)]
+  have e1 : (b0.toNat != 0xE0 || decide (0xA0 ≤ b1.toNat)) = true := by
+    by_cases h : b0.toNat = 0xE0 <;> simp [h, hlo]
+  have e2 : (b0.toNat != 0xED || decide (b1.toNat < 0xA0)) = true := by
+    by_cases h : b0.toNat = 0xED <;> simp [h, hsur]
+  simp only [(isCont_iff b1).2 h1, (isCont_iff b2).2 h2, e1, e2, Bool.true_and]
+
+/-- four-byte sequence `F0 90..BF`, `F1..F3 80..BF`, `F4 80..8F`, then `80..BF 80..BF` -/
+theorem validUtf8_four (b0 b1 b2 b3 : Byte) (r : Bytes) (h0 : 0xF0 ≤ b0.toNat ∧ b0.toNat < 0xF5)
+    (h1 : 0x80 ≤ b1.toNat ∧ b1.toNat ≤ 0xBF) (h2 : 0x80 ≤ b2.toNat ∧ b2.toNat ≤ 0xBF)
+    (h3 : 0x80 ≤ b3.toNat ∧ b3.toNat ≤ 0xBF)
+    (hlo : b0.toNat = 0xF0 → 0x90 ≤ b1.toNat) (hhi : b0.toNat = 0xF4 → b1.toNat < 0x90) :
+    validUtf8 (b0 :: b1 :: b2 :: b3 :: r) = validUtf8 r := by
+  rw [validUtf8_cons, if_neg (by omega), if_neg (by omega), if_neg (by omega), if_neg (by omega),
+    if_pos (by omega)]
+  have e1 : (b0.toNat != 0xF0 || decide (0x90 ≤ b1.toNat)) = true := by
+    by_cases h : b0.toNat = 0xF0 <;> simp [h, hlo]
+  have e2 : (b0.toNat != 0xF4 || decide (b1.toNat < 0x90)) = true := by
+    by_cases h : b0.toNat = 0xF4 <;> simp [h, hhi]
+  simp only [(isCont_iff b1).2 h1, (isCont_iff b2).2 h2, (isCont_iff b3).2 h3, e1, e2, Bool.true_and]
+
+theorem toNat_ofNat8 (n : Nat) : (BitVec.ofNat 8 n).toNat = n % 256 := by simp
+
+/-- the encoding of a scalar value is one well-formed sequence -/
+theorem validUtf8_utf8Char (c : Nat) (hs : isScalar c = true) (r : Bytes) :
+    validUtf8 (utf8Char c ++ r) = validUtf8 r := by
+  have hs' : c < 0xD800 ∨ (0xE000 ≤ c ∧ c < 0x110000) := by simpa [isScalar] using hs
+  unfold utf8Char
+  by_cases h1 : c < 0x80
+  · rw [if_pos h1]
+    exact validUtf8_one _ _ (by rw [toNat_ofNat8]; omega)
+  rw [if_neg h1]
+  by_cases h2 : c < 0x800
+  · rw [if_pos h2]
+    exact validUtf8_two _ _ _ (by rw [toNat_ofNat8]; omega) (by rw [toNat_ofNat8]; omega)
+  rw [if_neg h2]
+  by_cases h3 : c < 0x10000
+  · rw [if_pos h3]
+    exact validUtf8_three _ _ _ _ (by rw [toNat_ofNat8]; omega) (by rw [toNat_ofNat8]; omega)
+      (by rw [toNat_ofNat8]; omega) (by rw [toNat_ofNat8, toNat_ofNat8]; omega)
+      (by rw [toNat_ofNat8, toNat_ofNat8]; omega)
+  rw [if_neg h3]
+  exact validUtf8_four _ _ _ _ _ (by rw [toNat_ofNat8]; omega) (by rw [toNat_ofNat8]; omega)
+    (by rw [toNat_ofNat8]; omega) (by rw [toNat_ofNat8]; omega)
+    (by rw [toNat_ofNat8, toNat_ofNat8]; omega) (by rw [toNat_ofNat8, toNat_ofNat8]; omega)
+
+/-! #### text level: code points ↔ bytes -/
+
+theorem utf8Encode_cons_ok (c : Nat) (cs : List Nat) (r : Bytes) (hs : isScalar c = true)
+    (h : utf8Encode cs = .ok r) : utf8Encode (c :: cs) = .ok (utf8Char c ++ r) := by
+  simp only [utf8Encode, hs, if_true, h]; rfl
+
+/-- a text without lone surrogates can be encoded -/
+theorem utf8Encode_ok (cs : List Nat) (hs : ∀ c ∈ cs, isScalar c = true) :
+    ∃ bs, utf8Encode cs = .ok bs := by
+  induction cs with
+  | nil => exact ⟨[], rfl⟩
+  | cons c cs ih =>
+    obtain ⟨r, hr⟩ := ih (fun x hx => hs x (by simp [hx]))
+    exact ⟨_, utf8Encode_cons_ok c cs r (hs c (by simp)) hr⟩
+
+theorem utf8Encode_inv (c : Nat) (cs : List Nat) (bs : Bytes) (h : utf8Encode (c :: cs) = .ok bs) :
+    isScalar c = true ∧ ∃ r, utf8Encode cs = .ok r ∧ bs = utf8Char c ++ r := by
+  simp only [utf8Encode] at h
+  by_cases hs : isScalar c = true
+  · rw [if_pos hs] at h
+    cases hr : utf8Encode cs with
+    | error e => rw [hr] at h; cases h
+    | ok r =>
+      rw [hr] at h
+      refine ⟨hs, r, rfl, ?_⟩
+      injection h with h; exact h.symm
+  · rw [if_neg hs] at h; cases h
+
+/-- "the UTF-8 encoding of a text is valid UTF-8" -/
+theorem utf8Encode_valid : ∀ (cs : List Nat) (bs : Bytes), utf8Encode cs = .ok bs → validUtf8 bs = true
+  | [], bs, h => by cases h; rfl
+  | c :: cs, bs, h => by
+    obtain ⟨hs, r, hr, rfl⟩ := utf8Encode_inv c cs bs h
+    rw [validUtf8_utf8Char c hs]
+    exact utf8Encode_valid cs r hr
+
+theorem ofNat8_eq (b : Byte) (n : Nat) (h : n = b.toNat) : BitVec.ofNat 8 n = b := by
+  apply BitVec.eq_of_toNat_eq
+  rw [toNat_ofNat8, h]
+  have := b.isLt
+  omega
+
+/-- conversely every byte string the strict decoder accepts is the encoding of a text:
+    `validUtf8` is exactly "is the UTF-8 encoding of a sequence of scalar values" -/
+theorem validUtf8_decodes : ∀ (bs : Bytes), validUtf8 bs = true → ∃ cs, utf8Encode cs = .ok bs
+  | [], _ => ⟨[], rfl⟩
+  | b0 :: rest, h => by
+    rw [validUtf8_cons] at h
+    by_cases h1 : b0.toNat < 0x80
+    · rw [if_pos h1] at h
+      obtain ⟨cs, hcs⟩ := validUtf8_decodes rest h
+      refine ⟨b0.toNat :: cs, ?_⟩
+      rw [utf8Encode_cons_ok _ cs rest (by simp [isScalar]; omega) hcs]
+      simp only [utf8Char, h1, if_true, List.cons_append, List.nil_append, ofNat8_eq b0 _ rfl]
+    rw [if_neg h1] at h
+    by_cases h2 : b0.toNat < 0xC2
+    · rw [if_pos h2] at h; exact absurd h (by simp)
+    rw [if_neg h2] at h
+    by_cases h3 : b0.toNat < 0xE0
+    · rw [if_pos h3] at h
+      match rest, h with
+      | [], h => exact absurd h (by simp)
+      | b1 :: r, h =>
+        simp only [Bool.and_eq_true, isCont_iff] at h
+        obtain ⟨cs, hcs⟩ := validUtf8_decodes r h.2
+        refine ⟨((b0.toNat - 0xC0) * 64 + (b1.toNat - 0x80)) :: cs, ?_⟩
+        rw [utf8Encode_cons_ok _ cs r (by simp [isScalar]; omega) hcs]
+        have e : utf8Char ((b0.toNat - 0xC0) * 64 + (b1.toNat - 0x80)) = [b0, b1] := by
+          unfold utf8Char
+          rw [if_neg (by omega), if_pos (by omega), ofNat8_eq b0 _ (by omega), ofNat8_eq b1 _ (by omega)]
+        rw [e]; rfl
+    rw [if_neg h3] at h
+    by_cases h4 : b0.toNat < 0xF0
+    · rw [if_pos h4] at h
+      match rest, h with
+      | [], h => exact absurd h (by simp)
+      | [_], h => exact absurd h (by simp)
+      | b1 :: b2 :: r, h =>
+        simp only [Bool.and_eq_true, isCont_iff, Bool.or_eq_true, bne_iff_ne, ne_eq, decide_eq_true_eq] at h
+        obtain ⟨⟨⟨⟨hc1, hc2⟩, hlo⟩, hsur⟩, hr⟩ := h
+        obtain ⟨cs, hcs⟩ := validUtf8_decodes r hr
+        refine ⟨((b0.toNat - 0xE0) * 4096 + (b1.toNat - 0x80) * 64 + (b2.toNat - 0x80)) :: cs, ?_⟩
+        rw [utf8Encode_cons_ok _ cs r (by simp [isScalar]; omega) hcs]
+        have e : utf8Char ((b0.toNat - 0xE0) * 4096 + (b1.toNat - 0x80) * 64 + (b2.toNat - 0x80))
+            = [b0, b1, b2] := by
+          unfold utf8Char
+          rw [if_neg (by omega), if_neg (by omega), if_pos (by omega), ofNat8_eq b0 _ (by omega),
+            ofNat8_eq b1 _ (by omega), ofNat8_eq b2 _ (by omega)]
+        rw [e]; rfl
+    rw [if_neg h4] at h
+    by_cases h5 : b0.toNat < 0xF5
+    · rw [if_pos h5] at h
+      match rest, h with
+      | [], h => exact absurd h (by simp)
+      | [_], h => exact absurd h (by simp)
+      | [_, _], h => exact absurd h (by simp)
+      | b1 :: b2 :: b3 :: r, h =>
+        simp only [Bool.and_eq_true, isCont_iff, Bool.or_eq_true, bne_iff_ne, ne_eq, decide_eq_true_eq] at h
+        obtain ⟨⟨⟨⟨⟨hc1, hc2⟩, hc3⟩, hlo⟩, hhi⟩, hr⟩ := h
+        obtain ⟨cs, hcs⟩ := validUtf8_decodes r hr
+        refine ⟨((b0.toNat - 0xF0) * 262144 + (b1.toNat - 0x80) * 4096 + (b2.toNat - 0x80) * 64
+          + (b3.toNat - 0x80)) :: cs, ?_⟩
+        rw [utf8Encode_cons_ok _ cs r (by simp [isScalar]; omega) hcs]
+        have e : utf8Char ((b0.toNat - 0xF0) * 262144 + (b1.toNat - 0x80) * 4096 + (b2.toNat - 0x80) * 64
+            + (b3.toNat - 0x80)) = [b0, b1, b2, b3] := by
+          unfold utf8Char
+          rw [if_neg (by omega), if_neg (by omega), if_neg (by omega), ofNat8_eq b0 _ (by omega),
+            ofNat8_eq b1 _ (by omega), ofNat8_eq b2 _ (by omega), ofNat8_eq b3 _ (by omega)]
+        rw [e]; rfl
+    rw [if_neg h5] at h; exact absurd h (by simp)
+
+theorem validUtf8_iff_encoding (bs : Bytes) : validUtf8 bs = true ↔ ∃ cs, utf8Encode cs = .ok bs :=
+  ⟨validUtf8_decodes bs, fun ⟨cs, h⟩ => utf8Encode_valid cs bs h⟩
+
 /-! ### channel info -/
 
-theorem cstr_append_zeros (name : Bytes) (k : Nat) (hnul : ∀ b ∈ name, b ≠ 0) :
-    cstr (name ++ List.replicate k 0) = name := by
+theorem cstr_append_nul (name rest : Bytes) (hnul : ∀ b ∈ name, b ≠ 0) :
+    cstr (name ++ 0 :: rest) = name := by
   unfold cstr
   induction name with
-  | nil =>
-    cases k with
-    | zero => rfl
-    | succ k => simp [List.replicate_succ]
+  | nil => simp
   | cons b bs ih =>
     have hb : b ≠ 0 := hnul b (by simp)
     rw [List.cons_append, List.takeWhile_cons]
     simp only [ne_eq, hb, not_false_eq_true, decide_true, if_true]
     rw [ih (fun x hx => hnul x (by simp [hx]))]
 
+theorem cstr_append_of_no_nul (a b : Bytes) (ha : ∀ x ∈ a, x ≠ 0) : cstr (a ++ b) = a ++ cstr b := by
+  unfold cstr
+  induction a with
+  | nil => rfl
+  | cons x xs ih =>
+    have hx : x ≠ 0 := ha x (by simp)
+    rw [List.cons_append, List.takeWhile_cons]
+    simp only [ne_eq, hx, not_false_eq_true, decide_true, if_true, List.cons_append]
+    rw [ih (fun y hy => ha y (by simp [hy]))]
+
 theorem cstr_no_nul (name : Bytes) (hnul : ∀ b ∈ name, b ≠ 0) : cstr name = name := by
-  have := cstr_append_zeros name 0 hnul
-  simpa using this
+  have := cstr_append_of_no_nul name [] hnul
+  simpa [cstr] using this
+
+theorem cstr_append_zeros (name : Bytes) (k : Nat) (hnul : ∀ b ∈ name, b ≠ 0) :
+    cstr (name ++ List.replicate k 0) = name := by
+  cases k with
+  | zero => simpa using cstr_no_nul name hnul
+  | succ k => rw [List.replicate_succ]; exact cstr_append_nul name _ hnul
+
+theorem validUtf8_zeros (k : Nat) : validUtf8 (List.replicate k (0 : Byte)) = true := by
+  induction k with
+  | zero => rfl
+  | succ k ih => rw [List.replicate_succ, validUtf8_one _ _ (by decide)]; exact ih
+
+theorem ofNat8_ne_zero (n : Nat) (h : n % 256 ≠ 0) : BitVec.ofNat 8 n ≠ 0 := by
+  intro e
+  have := congrArg BitVec.toNat e
+  rw [toNat_ofNat8] at this
+  exact h this
+
+/-- in the encoding of a text the byte 0 occurs only as the encoding of U+0000 -/
+theorem utf8Char_no_nul (c : Nat) (hc : c ≠ 0) (hs : isScalar c = true) : ∀ b ∈ utf8Char c, b ≠ 0 := by
+  have hs' : c < 0xD800 ∨ (0xE000 ≤ c ∧ c < 0x110000) := by simpa [isScalar] using hs
+  unfold utf8Char
+  by_cases h1 : c < 0x80
+  · rw [if_pos h1]; intro b hb
+    simp only [List.mem_singleton] at hb
+    subst hb; exact ofNat8_ne_zero _ (by omega)
+  rw [if_neg h1]
+  by_cases h2 : c < 0x800
+  · rw [if_pos h2]; intro b hb
+    simp only [List.mem_cons, List.not_mem_nil, or_false] at hb
+    rcases hb with rfl | rfl <;> exact ofNat8_ne_zero _ (by omega)
+  rw [if_neg h2]
+  by_cases h3 : c < 0x10000
+  · rw [if_pos h3]; intro b hb
+    simp only [List.mem_cons, List.not_mem_nil, or_false] at hb
+    rcases hb with rfl | rfl | rfl <;> exact ofNat8_ne_zero _ (by omega)
+  rw [if_neg h3]; intro b hb
+  simp only [List.mem_cons, List.not_mem_nil, or_false] at hb
+  rcases hb with rfl | rfl | rfl | rfl <;> exact ofNat8_ne_zero _ (by omega)
+
+theorem utf8Encode_no_nul : ∀ (cs : List Nat) (bs : Bytes), utf8Encode cs = .ok bs →
+    (∀ c ∈ cs, c ≠ 0) → ∀ b ∈ bs, b ≠ 0
+  | [], bs, h, _ => by cases h; simp
+  | c :: cs, bs, h, hc => by
+    obtain ⟨hs, r, hr, rfl⟩ := utf8Encode_inv c cs bs h
+    intro b hb
+    rcases List.mem_append.1 hb with hb | hb
+    · exact utf8Char_no_nul c (hc c (by simp)) hs b hb
+    · exact utf8Encode_no_nul cs r hr (fun x hx => hc x (by simp [hx])) b hb
+
+/-- cutting the bytes at the first NUL byte is cutting the text at the first U+0000:
+    `.decode().split("\x00")[0]` re-encoded is `cstr` of the bytes -/
+theorem cstr_utf8Encode : ∀ (cs : List Nat) (bs : Bytes), utf8Encode cs = .ok bs →
+    utf8Encode (cs.takeWhile (· ≠ 0)) = .ok (cstr bs)
+  | [], bs, h => by cases h; rfl
+  | c :: cs, bs, h => by
+    obtain ⟨hs, r, hr, rfl⟩ := utf8Encode_inv c cs bs h
+    by_cases hc : c = 0
+    · subst hc
+      simp only [ne_eq, not_true_eq_false, decide_false, List.takeWhile_cons, Bool.false_eq_true, if_false]
+      rfl
+    · rw [List.takeWhile_cons]
+      simp only [ne_eq, hc, not_false_eq_true, decide_true, if_true]
+      rw [cstr_append_of_no_nul _ _ (utf8Char_no_nul c hc hs)]
+      exact utf8Encode_cons_ok c _ _ hs (cstr_utf8Encode cs r hr)
 
 theorem chinfoData_eq (en : Bool) (ty vdim div mlen : Nat) (name : Bytes)
     (ht : ty ≤ 255) (hv : vdim ≤ 255) (hd : div ≤ 255) (hm : mlen ≤ 255) :
@@ -256,9 +578,12 @@ theorem byte_ne_zero (en : Byte) : decide (((en.toNat : Nat) : Int) ≠ 0) = dec
   · intro h h'; apply h; apply BitVec.eq_of_toNat_eq
     simp; omega
 
+/-- the decoder on any payload of at least five bytes: the name field is decoded as strict UTF-8
+    first (error when it is not well-formed, wherever the bad bytes are), then cut at the first NUL -/
 theorem chinfoDecode_five (a b c d e : Byte) (s : Bytes) :
     chinfoDecode ⟨3, [a, b, c, d, e] ++ s⟩
-      = .ok (some ⟨a ≠ 0, b.toNat, c.toNat, d.toNat, e.toNat, cstr s⟩) := by
+      = if validUtf8 s then .ok (some ⟨a ≠ 0, b.toNat, c.toNat, d.toNat, e.toNat, cstr s⟩)
+        else .error .unicodeError := by
   unfold chinfoDecode
   have h0 : ¬ ((⟨3, [a, b, c, d, e] ++ s⟩ : Serial.Frame).fid ≠ idCHINFO) := by simp [idCHINFO]
   have hl : (⟨3, [a, b, c, d, e] ++ s⟩ : Serial.Frame).data.length - 5 = s.length := by simp
@@ -270,15 +595,34 @@ theorem chinfoDecode_five (a b c d e : Byte) (s : Bytes) :
   rw [hu]
   simp only [Int.toNat_natCast, byte_ne_zero]
 
+theorem chinfoDecode_valid (a b c d e : Byte) (s : Bytes) (hv : validUtf8 s = true) :
+    chinfoDecode ⟨3, [a, b, c, d, e] ++ s⟩
+      = .ok (some ⟨a ≠ 0, b.toNat, c.toNat, d.toNat, e.toNat, cstr s⟩) := by
+  rw [chinfoDecode_five, if_pos hv]
+
+theorem chinfo_invalid_utf8 (a b c d e : Byte) (s : Bytes) (hv : validUtf8 s = false) :
+    chinfoDecode ⟨3, [a, b, c, d, e] ++ s⟩ = .error .unicodeError := by
+  rw [chinfoDecode_five, if_neg (by simp [hv])]
+
+theorem chinfo_nul_then_rest (en ty vdim div mlen : Byte) (name rest : Bytes)
+    (hnul : ∀ b ∈ name, b ≠ 0) (hvn : validUtf8 name = true) (hvr : validUtf8 rest = true) :
+    chinfoDecode ⟨3, [en, ty, vdim, div, mlen] ++ (name ++ 0 :: rest)⟩
+      = .ok (some ⟨en ≠ 0, ty.toNat, vdim.toNat, div.toNat, mlen.toNat, name⟩) := by
+  have hv : validUtf8 (name ++ 0 :: rest) = true := by
+    rw [validUtf8_append name _ hvn, validUtf8_one _ _ (by decide)]; exact hvr
+  rw [chinfoDecode_valid _ _ _ _ _ _ hv, cstr_append_nul name rest hnul]
+
 theorem chinfo_trailing_nul (en ty vdim div mlen : Byte) (name : Bytes) (k : Nat)
-    (hnul : ∀ b ∈ name, b ≠ 0) :
+    (hnul : ∀ b ∈ name, b ≠ 0) (hvn : validUtf8 name = true) :
     chinfoDecode ⟨3, [en, ty, vdim, div, mlen] ++ name ++ List.replicate k 0⟩
       = .ok (some ⟨en ≠ 0, ty.toNat, vdim.toNat, div.toNat, mlen.toNat, name⟩) := by
-  rw [List.append_assoc, chinfoDecode_five, cstr_append_zeros name k hnul]
+  have hv : validUtf8 (name ++ List.replicate k 0) = true := by
+    rw [validUtf8_append name _ hvn]; exact validUtf8_zeros k
+  rw [List.append_assoc, chinfoDecode_valid _ _ _ _ _ _ hv, cstr_append_zeros name k hnul]
 
 theorem chinfo_rt (en : Bool) (ty vdim div mlen : Nat) (name : Bytes)
     (ht : ty ≤ 255) (hv : vdim ≤ 255) (hd : div ≤ 255) (hm : mlen ≤ 255)
-    (hnul : ∀ b ∈ name, b ≠ 0) (hfit : name.length ≤ 65524) :
+    (hnul : ∀ b ∈ name, b ≠ 0) (hutf : validUtf8 name = true) (hfit : name.length ≤ 65524) :
     chinfoEncode ⟨en, ty, vdim, div, mlen, name⟩
       = .ok (wire 3 ([BitVec.ofNat 8 (if en then 1 else 0), BitVec.ofNat 8 ty, BitVec.ofNat 8 vdim,
           BitVec.ofNat 8 div, BitVec.ofNat 8 mlen] ++ name)) ∧
@@ -286,9 +630,239 @@ theorem chinfo_rt (en : Bool) (ty vdim div mlen : Nat) (name : Bytes)
         BitVec.ofNat 8 vdim, BitVec.ofNat 8 div, BitVec.ofNat 8 mlen] ++ name))).bind
         chinfoDecode = .ok (some ⟨en, ty, vdim, div, mlen, name⟩) := by
   refine ⟨chinfoEncode_eq en ty vdim div mlen name ht hv hd hm hfit, ?_⟩
-  rw [Serial.frameDecode_wire 3 _ (by simp; omega) (by omega), ok_bind, chinfoDecode_five,
+  rw [Serial.frameDecode_wire 3 _ (by simp; omega) (by omega), ok_bind, chinfoDecode_valid _ _ _ _ _ _ hutf,
     cstr_no_nul name hnul, ofNat8_toNat _ ht, ofNat8_toNat _ hv, ofNat8_toNat _ hd,
     ofNat8_toNat _ hm]
   cases en <;> rfl
 
+/-- encode then decode in one step (what the handshake composition uses) -/
+theorem chinfo_encode_decode (en : Bool) (ty vdim div mlen : Nat) (name : Bytes)
+    (ht : ty ≤ 255) (hv : vdim ≤ 255) (hd : div ≤ 255) (hm : mlen ≤ 255)
+    (hnul : ∀ b ∈ name, b ≠ 0) (hutf : validUtf8 name = true) (hfit : name.length ≤ 65524) :
+    ((chinfoEncode ⟨en, ty, vdim, div, mlen, name⟩).bind Serial.frameDecode).bind chinfoDecode
+      = .ok (some ⟨en, ty, vdim, div, mlen, name⟩) := by
+  obtain ⟨h1, h2⟩ := chinfo_rt en ty vdim div mlen name ht hv hd hm hnul hutf hfit
+  rw [h1, ok_bind]; exact h2
+
+theorem cmninfo_encode_decode (chmax flags rxp : Nat) (h1 : chmax ≤ 255) (h2 : flags ≤ 255) (h3 : rxp ≤ 255) :
+    ((cmninfoEncode chmax flags rxp).bind Serial.frameDecode).bind cmninfoDecode
+      = .ok (some (chmax, flags, rxp)) := by
+  obtain ⟨e1, e2⟩ := cmninfo_rt chmax flags rxp h1 h2 h3
+  rw [e1, ok_bind]; exact e2
+
+/-- the name as a text: a text of scalar values without U+0000 whose encoding fits arrives unchanged -/
+theorem chinfo_rt_text (en : Bool) (ty vdim div mlen : Nat) (text : List Nat)
+    (ht : ty ≤ 255) (hv : vdim ≤ 255) (hd : div ≤ 255) (hm : mlen ≤ 255)
+    (hsc : ∀ c ∈ text, isScalar c = true) (hnul : ∀ c ∈ text, c ≠ 0) :
+    ∃ name, utf8Encode text = .ok name ∧ (name.length ≤ 65524 →
+      ((chinfoEncodeText en ty vdim div mlen text).bind Serial.frameDecode).bind chinfoDecode
+        = .ok (some ⟨en, ty, vdim, div, mlen, name⟩)) := by
+  obtain ⟨name, hname⟩ := utf8Encode_ok text hsc
+  refine ⟨name, hname, fun hfit => ?_⟩
+  unfold chinfoEncodeText
+  rw [hname, ok_bind]
+  exact chinfo_encode_decode en ty vdim div mlen name ht hv hd hm
+    (utf8Encode_no_nul text name hname hnul) (utf8Encode_valid text name hname) hfit
+
 end Nxs.Info
+
+/-! ## the description after `connect()`: Info ∘ Handshake (definitions in `Describe.lean`) -/
+
+namespace Nxs.Describe
+open Nxs Nxs.Info Nxs.Handshake Gen.Comm
+
+/-! ### the handshake against a link that answers every request (`Resp.ok`) -/
+
+/-- every remaining response of the link is the conforming one -/
+def AllOk (s : St) : Prop := (∀ r ∈ s.script, r = Resp.ok) ∧ s.dflt = Resp.ok
+
+theorem request_allOk (s : St) (r : Req) (t : Nat) (h : AllOk s) :
+    ∃ s', request s r t = (.answer, s') ∧ AllOk s' ∧ s'.sent = s.sent ++ [r] ∧ s'.padding = s.padding := by
+  obtain ⟨hs, hd⟩ := h
+  unfold request St.next
+  cases hsc : s.script with
+  | nil =>
+    simp only [hd]
+    exact ⟨_, rfl, ⟨by simp, rfl⟩, rfl, rfl⟩
+  | cons x rest =>
+    have hx : x = Resp.ok := hs x (by simp [hsc])
+    subst hx
+    exact ⟨_, rfl, ⟨fun y hy => hs y (by simp [hsc, hy]), hd⟩, rfl, rfl⟩
+
+theorem chinfoLoop_allOk (s : St) (i k : Nat) (h : AllOk s) :
+    ∃ s', chinfoLoop s i (k + 1) = (.answer, s') ∧ AllOk s' ∧ s'.sent = s.sent ++ [.chinfo i]
+      ∧ s'.padding = s.padding := by
+  obtain ⟨s', e, h1, h2, h3⟩ := request_allOk s (.chinfo i) chinfoTimeout h
+  exact ⟨s', by simp only [chinfoLoop, e], h1, h2, h3⟩
+
+theorem chinfoAll_allOk : ∀ (n i : Nat) (s : St), AllOk s →
+    ∃ s', chinfoAll s i n = (.answer, s') ∧ AllOk s' ∧
+      s'.sent = s.sent ++ (List.range' i n).map Req.chinfo
+  | 0, i, s, h => ⟨s, rfl, h, by simp⟩
+  | n + 1, i, s, h => by
+    have hk : chinfoAttempts = 5 + 1 := rfl
+    obtain ⟨s1, e1, h1, hs1, _⟩ := chinfoLoop_allOk s i 5 h
+    obtain ⟨s2, e2, h2, hs2⟩ := chinfoAll_allOk n (i + 1) s1 h1
+    refine ⟨s2, ?_, h2, ?_⟩
+    · simp only [chinfoAll, hk, e1, e2]
+    · rw [hs2, hs1, List.range'_succ, List.map_cons, List.append_assoc]; rfl
+
+/-- the requests of one successful `_devinfo_get`: common info, the padding trigger write when the
+    device asks for one, every channel in order -/
+def infoRequests (dev : DevDesc) (padding : Nat) : List Req :=
+  [.cmninfo] ++ (if dev.rxpadding > 0 ∧ padding ≠ dev.rxpadding then [.padding dev.rxpadding] else [])
+    ++ (List.range' 0 dev.chmax).map Req.chinfo
+
+theorem devinfoGet_allOk (dev : DevDesc) (s : St) (h : AllOk s) :
+    ∃ s', devinfoGet dev s = (.answer, s') ∧ s'.sent = s.sent ++ infoRequests dev s.padding := by
+  obtain ⟨s1, e1, h1, hs1, hp1⟩ := request_allOk s .cmninfo cmninfoTimeout h
+  unfold devinfoGet
+  simp only [e1]
+  by_cases hp : dev.rxpadding > 0 ∧ s1.padding ≠ dev.rxpadding
+  · rw [if_pos hp]
+    obtain ⟨s2, e2, _, hs2⟩ := chinfoAll_allOk dev.chmax 0
+      (dropAll { s1 with padding := dev.rxpadding, sent := s1.sent ++ [.padding dev.rxpadding] }) h1
+    refine ⟨s2, e2, ?_⟩
+    rw [hs2]
+    simp only [dropAll, hs1, infoRequests, ← hp1, if_pos hp, List.append_assoc]
+  · rw [if_neg hp]
+    obtain ⟨s2, e2, _, hs2⟩ := chinfoAll_allOk dev.chmax 0 (dropAll s1) h1
+    refine ⟨s2, e2, ?_⟩
+    rw [hs2]
+    simp only [dropAll, hs1, infoRequests, ← hp1, if_neg hp, List.append_assoc, List.append_nil]
+
+/-- `connect()` against a link that answers every request: connected, and exactly these requests -/
+theorem connect_allOk (dev : DevDesc) (script : List Resp) (h : ∀ r ∈ script, r = Resp.ok) :
+    (connect dev script .ok).outcome = .connected dev.chmax dev.flags dev.rxpadding ∧
+    (connect dev script .ok).sent = [.stop] ++ infoRequests dev 0 := by
+  have hk : connectAttempts = 5 + 1 := rfl
+  have h0 : AllOk (dropAll { script := script, dflt := .ok, sent := [.stop] }) := ⟨h, rfl⟩
+  obtain ⟨s', e, hs⟩ := devinfoGet_allOk dev _ h0
+  unfold connect
+  simp only [hk, connectLoop, e]
+  exact ⟨trivial, hs⟩
+
+/-! ### the client reads the conforming device's answers -/
+
+/-- a channel configuration within the quantifier of C06: one-byte fields, a name that is the
+    UTF-8 encoding of a text without NUL and fits in a frame -/
+structure ChanOk (c : ChanCfg) : Prop where
+  type : 0 ≤ c.type ∧ c.type ≤ 255
+  vdim : 0 ≤ c.vdim ∧ c.vdim ≤ 255
+  div : 0 ≤ c.div ∧ c.div ≤ 255
+  mlen : 0 ≤ c.mlen ∧ c.mlen ≤ 255
+  nonul : ∀ b ∈ c.name, b ≠ 0
+  utf8 : validUtf8 c.name = true
+  fits : c.name.length ≤ 65524
+
+structure CfgOk (c : DevCfg) : Prop where
+  chmax : c.chans.length ≤ 255
+  flags : c.flags ≤ 255
+  rxpadding : c.rxpadding ≤ 255
+  chans : ∀ ch ∈ c.chans, ChanOk ch
+
+/-- the configured values as the client should see them -/
+def toInfo (c : ChanCfg) : ChanInfo := ⟨c.en, c.type.toNat, c.vdim.toNat, c.div.toNat, c.mlen.toNat, c.name⟩
+
+/-- channels `i0, i0+1, …` as the client should hold them -/
+def clientView : List ChanCfg → Nat → List ClientChan
+  | [], _ => []
+  | c :: cs, i => ⟨i, toInfo c⟩ :: clientView cs (i + 1)
+
+theorem clientView_length (cs : List ChanCfg) (i : Nat) : (clientView cs i).length = cs.length := by
+  induction cs generalizing i with
+  | nil => rfl
+  | cons c cs ih => simp [clientView, ih]
+
+theorem clientView_eq_zipIdx (cs : List ChanCfg) (i : Nat) :
+    clientView cs i = (cs.zipIdx i).map fun p => ⟨p.2, toInfo p.1⟩ := by
+  induction cs generalizing i with
+  | nil => rfl
+  | cons c cs ih => simp [clientView, ih, List.zipIdx_cons]
+
+theorem chan_encode_decode (c : ChanCfg) (h : ChanOk c) :
+    ((chinfoEncode c).bind Serial.frameDecode).bind chinfoDecode = .ok (some (toInfo c)) := by
+  obtain ⟨en, ty, vdim, div, mlen, name⟩ := c
+  obtain ⟨⟨t0, t1⟩, ⟨v0, v1⟩, ⟨d0, d1⟩, ⟨m0, m1⟩, hn, hu, hf⟩ := h
+  simp only at t0 t1 v0 v1 d0 d1 m0 m1 hn hu hf
+  have := chinfo_encode_decode en ty.toNat vdim.toNat div.toNat mlen.toNat name (by omega) (by omega)
+    (by omega) (by omega) hn hu hf
+  rw [Int.toNat_of_nonneg t0, Int.toNat_of_nonneg v0, Int.toNat_of_nonneg d0, Int.toNat_of_nonneg m0] at this
+  exact this
+
+theorem bind_bind_of_ok {α β γ : Type} (x : Except Err α) (f : α → Except Err β) (g : β → Except Err γ) (v : β)
+    (h : x.bind f = .ok v) : (x.bind fun a => (f a).bind g) = g v := by
+  cases x with
+  | error e => cases h
+  | ok a =>
+    have h' : f a = .ok v := h
+    show (f a).bind g = g v
+    rw [h']; rfl
+
+theorem absorb_stop (c : DevCfg) (st : Collected) : absorb c st .stop = .ok st := rfl
+theorem absorb_padding (c : DevCfg) (st : Collected) (n : Nat) : absorb c st (.padding n) = .ok st := rfl
+
+theorem absorb_cmninfo (c : DevCfg) (h : CfgOk c) (st : Collected) :
+    absorb c st .cmninfo = .ok { cmn := some (c.chans.length, c.flags, c.rxpadding), chans := [] } := by
+  have e := cmninfo_encode_decode c.chans.length c.flags c.rxpadding h.chmax h.flags h.rxpadding
+  unfold absorb respond
+  simp only
+  rw [bind_bind_of_ok _ _ _ _ e]
+
+theorem absorb_chinfo (c : DevCfg) (st : Collected) (i : Nat) (ch : ChanCfg) (hi : c.chans[i]? = some ch)
+    (h : ChanOk ch) :
+    absorb c st (.chinfo i) = .ok { st with chans := st.chans ++ [⟨i, toInfo ch⟩] } := by
+  have e := chan_encode_decode ch h
+  unfold absorb respond
+  simp only [hi, Option.map_some]
+  rw [bind_bind_of_ok _ _ _ _ e]
+
+theorem absorbAll_append (c : DevCfg) (st : Collected) (a b : List Req) :
+    absorbAll c st (a ++ b) = (absorbAll c st a).bind fun st' => absorbAll c st' b := by
+  induction a generalizing st with
+  | nil => rfl
+  | cons r rs ih =>
+    simp only [List.cons_append, absorbAll]
+    cases absorb c st r with
+    | error e => rfl
+    | ok st' => exact ih st'
+
+/-- reading the channels `pre.length, …` when the device's channel list is `pre ++ post` -/
+theorem absorbAll_chans (c : DevCfg) : ∀ (post pre : List ChanCfg) (st : Collected),
+    c.chans = pre ++ post → (∀ ch ∈ post, ChanOk ch) →
+    absorbAll c st ((List.range' pre.length post.length).map Req.chinfo)
+      = .ok { st with chans := st.chans ++ clientView post pre.length }
+  | [], pre, st, _, _ => by simp [absorbAll, clientView]
+  | ch :: post, pre, st, hc, hok => by
+    have hi : c.chans[pre.length]? = some ch := by rw [hc]; simp
+    rw [List.length_cons, List.range'_succ, List.map_cons, absorbAll,
+      absorb_chinfo c st pre.length ch hi (hok ch (by simp)), ok_bind]
+    have := absorbAll_chans c post (pre ++ [ch]) { st with chans := st.chans ++ [⟨pre.length, toInfo ch⟩] }
+      (by rw [hc]; simp) (fun x hx => hok x (by simp [hx]))
+    rw [List.length_append, List.length_singleton] at this
+    rw [this]
+    simp [clientView]
+
+/-- the description after reading the answers to the requests of a successful handshake -/
+theorem describe_requests (c : DevCfg) (h : CfgOk c) (padding : Nat) :
+    describe c ([.stop] ++ infoRequests c.desc padding)
+      = .ok ⟨c.chans.length, c.flags, c.rxpadding, divSupported c.flags, ackSupported c.flags,
+          clientView c.chans 0⟩ := by
+  unfold describe infoRequests
+  rw [absorbAll_append, show absorbAll c {} [Req.stop] = .ok {} from rfl, ok_bind,
+    absorbAll_append, absorbAll_append,
+    show absorbAll c {} [Req.cmninfo] = (absorb c {} .cmninfo).bind fun st' => .ok st' from rfl,
+    absorb_cmninfo c h, ok_bind, ok_bind]
+  have hpad : ∀ st : Collected, absorbAll c st
+      (if c.desc.rxpadding > 0 ∧ padding ≠ c.desc.rxpadding then [Req.padding c.desc.rxpadding] else [])
+      = .ok st := by
+    intro st; split <;> rfl
+  rw [hpad, ok_bind]
+  have := absorbAll_chans c c.chans [] { cmn := some (c.chans.length, c.flags, c.rxpadding), chans := [] }
+    rfl h.chans
+  simp only [List.length_nil, List.nil_append] at this
+  show (absorbAll c _ ((List.range' 0 c.chans.length).map Req.chinfo)).bind mkDevice = _
+  rw [this, ok_bind]
+  simp [mkDevice, clientView_length]
+
+end Nxs.Describe
